@@ -59,6 +59,22 @@ Definition serial_process (m : msg) (p : port)
       else Some (Ok None, {| pt_in := pt_in p; pt_out := w' |}, ev1)
   end.
 
+(* A conversation: one exchange after another on the same port, each starting where the last one left the port's
+   streams (results in order; the port at the end). *)
+Fixpoint serial_run (ms : list msg) (p : port) : option (list (result rerr (option msg)) * port) :=
+  match ms with
+  | [] => Some ([], p)
+  | m :: ms' =>
+      match serial_process m p with
+      | None => None
+      | Some (res, p', _) =>
+          match serial_run ms' p' with
+          | None => None
+          | Some (rs, p'') => Some (res :: rs, p'')
+          end
+      end
+  end.
+
 (* ---------- the ODK bridge ---------- *)
 Inductive oerr : Type :=
 | OComm (e : rerr)      (* OdkError::Communication *)
